@@ -38,6 +38,7 @@ from treadmill import endpoints
 from treadmill import exc
 from treadmill import firewall
 from treadmill import iptables as real_iptables
+from treadmill import netdev as real_netdev
 from treadmill import rulefile
 from treadmill import runtime
 from treadmill import subproc
@@ -58,6 +59,11 @@ NET_CIDR = ipaddress.IPv4Network(network_service.NetworkResourceService
 ENVS = ('dev', 'qa', 'uat', 'prod')
 DNS = {'hosta': '172.16.0.1', 'hostb': '172.16.0.2', 'hostc': '172.16.0.3',
        'hosta-alias': '172.16.0.1'}
+# passthrough entries: names, and address literals in canonical and in
+# non-canonical form (octal / short / hex: what inet_aton accepts and
+# gethostbyname canonicalises - the schema has no format check)
+PASSTHROUGH_HOSTS = sorted(DNS) + ['172.16.0.9', '172.016.000.010', '10.1',
+                                   '0x0a.0.0.7']
 CHAINS = (real_iptables.PREROUTING_DNAT, real_iptables.POSTROUTING_SNAT,
           real_iptables.PREROUTING_PASSTHROUGH)
 HOST_SETS = (real_iptables.SET_INFRA_SVC, real_iptables.SET_VRING_CONTAINERS,
@@ -201,7 +207,8 @@ class World:
                 'start_killed', 'finish_killed', 'finish_killed_then_repeated',
                 'command_failed', 'eaddrinuse', 'resolver_failed'), 0)
         # -- fakes
-        self.netdev = netshims.FakeNetdev(seam, subproc, EXT_DEV)
+        self.netdev = netshims.FakeNetdev(seam, subproc, EXT_DEV,
+                                          real=real_netdev)
         self.ipt = netshims.FakeIptables(seam, subproc, real_iptables)
         self.ipt.host_init(HOST_SETS)
         self.newnet = netshims.FakeNewnet(seam)
@@ -2040,8 +2047,8 @@ class Generator:
             'endpoints': endpoints_,
             'ephemeral_ports': {'tcp': rng.randint(0, cfg['max_ephemeral']),
                                 'udp': rng.randint(0, cfg['max_ephemeral'])},
-            'passthrough': rng.sample(sorted(DNS), rng.choice([0, 0, 1, 2,
-                                                                3])),
+            'passthrough': rng.sample(PASSTHROUGH_HOSTS,
+                                      rng.choice([0, 0, 1, 2, 3])),
             'vring': vring,
         }
 
@@ -2119,7 +2126,7 @@ class Generator:
     def _resolve_fault(self, op, man):
         """The resolver fails (socket.gaierror) for some of the passthrough
         hosts while this op runs."""
-        hosts = sorted(set(man['passthrough']))
+        hosts = sorted(h for h in set(man['passthrough']) if h in DNS)
         if hosts and not man['shared_network'] and \
                 self.frng.random() < self.config.get('p_resolve_fault', 0.0):
             k = self.frng.randint(1, len(hosts))
@@ -2249,7 +2256,10 @@ class NetSim(enginemod.Engine):
         'flush_cnt_conntrack_table recorded (can fail)',
         'treadmill.newnet.create_newnet: recorded',
         'socket in treadmill.runtime: host port table with EADDRINUSE; '
-        'socket.gethostbyname: fixed table; hosts named in the op\'s '
+        'socket.gethostbyname: IPv4 literals (any form inet_aton accepts) '
+        'are canonicalised as the real resolver does, names come from a '
+        'fixed table; constants, exception classes and inet_*/hton* are the '
+        'real ones; hosts named in the op\'s '
         '"resolve_fault" raise socket.gaierror while that op (a start or a '
         'finish) runs',
         'random in treadmill.runtime: permutation of the port pool decided '
@@ -2401,6 +2411,7 @@ class NetSim(enginemod.Engine):
         clock = clockmod.Clock(config['start'])
         root = fsseam.make_scratch()
         world = None
+        del fsseam.PENDING_HARNESS_ERRORS[:]
         clock.install()
         try:
             world = World(config, clock, prop, log, root, seam)
@@ -2458,7 +2469,13 @@ class NetSim(enginemod.Engine):
         world.step = n
         executed.append(op)
         log.ev('op', op)
-        world.apply(op)
+        try:
+            world.apply(op)
+        finally:
+            # a shim noticed a defect of the harness while repo code ran
+            # (the repo code may have swallowed the exception): exit 2
+            if fsseam.PENDING_HARNESS_ERRORS:
+                fsseam.raise_pending_harness_error()
 
     @staticmethod
     def _install(patches, world):
